@@ -1283,12 +1283,35 @@ func (v *Verifier) appendBuiltin(st *State, tg *callTarget, bind ssa.Value, in s
 		}
 		v.bindResults(stB, bind, []*Term{mkSlice(nb, intLit(0), newLen, ncap)})
 	}
+	// []string contents as a set: append(s, k) adds k to the set of s, and keeps it duplicate-free exactly when
+	// s was and k is new (facts about the abstract functions zz_sset / zz_snodup, true by their definition)
+	setFacts := func(stX *State, hOld *Term, k *Term) {
+		if !v.setTheory || v.sortOf(elemT) != "String" || !(nKnown && nlit == 1) {
+			return
+		}
+		v.usesSetTheory()
+		res := stX.top().vals[bind]
+		if res == nil {
+			return
+		}
+		hNew := v.heapFor(stX, "String").arrayTerm()
+		oldSet := mk("StrSet", "zz_sset", hOld, s)
+		stX.assume(tEq(mk("StrSet", "zz_sset", hNew, res), mk("StrSet", "store", oldSet, k, tTrue)))
+		stX.assume(tEq(mk("Bool", "zz_snodup", hNew, res), tAnd(mk("Bool", "zz_snodup", hOld, s), tNot(mk("Bool", "select", oldSet, k)))))
+	}
+	var hOld0, k0 *Term
+	if v.setTheory && v.sortOf(elemT) == "String" && nKnown && nlit == 1 {
+		hOld0 = v.heapFor(st, "String").arrayTerm()
+		k0 = v.load(st, pElem(slBase(xs), slOff(xs)), elemT)
+	}
 	if fits.Op == "true" {
 		doInPlace(st)
+		setFacts(st, hOld0, k0)
 		return
 	}
 	if fits.Op == "false" {
 		doRealloc(st)
+		setFacts(st, hOld0, k0)
 		return
 	}
 	// fork: continue the realloc path in a clone after the in-place path. Because applyCall must return
@@ -1296,9 +1319,11 @@ func (v *Verifier) appendBuiltin(st *State, tg *callTarget, bind ssa.Value, in s
 	stB := st.clone()
 	stB.assume(tNot(fits))
 	doRealloc(stB)
+	setFacts(stB, hOld0, k0)
 	v.pendingForks = append(v.pendingForks, stB)
 	st.assume(fits)
 	doInPlace(st)
+	setFacts(st, hOld0, k0)
 }
 
 // assumeQInt assumes forall i. body (i is the bound variable term occurring in body) and also registers the fact for
@@ -1535,6 +1560,16 @@ func (v *Verifier) havocLoopLocals(st *State, h *ssa.BasicBlock, blocks map[*ssa
 		if phi, ok := in.(*ssa.Phi); ok {
 			t := v.Y.fresh(v.D, "phi_"+phi.Comment, v.sortOf(phi.Type()))
 			v.addTypeFacts(st, t, phi.Type())
+			if v.setTheory && (t.Sort == "Slice" || t.Sort == "Ptr") {
+				// the objects the body allocates from here on (zz_new ids >= newCtr) stand for allocations of the
+				// current iteration: a value carried into the iteration cannot point into one of them
+				v.D.add("raw:rootid", `(define-fun-rec zz_rootid ((p Ptr)) Int (ite ((_ is zz_new) p) (zz_new_id p) (ite ((_ is zz_fld) p) (zz_rootid (zz_fld_base p)) (ite ((_ is zz_elem) p) (zz_rootid (zz_elem_base p)) (- 1)))))`)
+				pt := t
+				if t.Sort == "Slice" {
+					pt = slBase(t)
+				}
+				st.assume(tCmp("<", mk("Int", "zz_rootid", pt), intLit(int64(v.newCtr))))
+			}
 			if phi.Comment == "rangeindex" {
 				// built-in invariant of go/ssa's range-over-slice lowering: the index starts at -1, only increments,
 				// and the loop is left as soon as index+1 reaches the bound
@@ -2046,6 +2081,14 @@ func (v *Verifier) verifyFunc(fn *ssa.Function, con *Contract, name string) {
 	v.curFn = name
 	v.factSeen = map[string]bool{}
 	v.curCon = con
+	v.setTheory = false
+	for _, lc := range con.Loops {
+		for _, inv := range lc.Invariants {
+			if strings.Contains(inv.Src, "visitedset(") {
+				v.setTheory = true
+			}
+		}
+	}
 	v.curTop = fn
 	v.newCtr = 0
 	v.pathN = 0
